@@ -14,6 +14,7 @@ def kernel_cases(seed, thorough=False):
     import pygaps.characterisation.psd_kernel as PK
     from pygaps.data import KERNELS
     from pygaps.utilities.exceptions import CalculationError
+    import pandas
     path = KERNELS['DFT-N2-77K-carbon-slit']
     kernel = PK._load_kernel(path)
     widths = numpy.asarray(list(kernel.keys()), dtype=float)
@@ -49,7 +50,6 @@ def kernel_cases(seed, thorough=False):
                 yield {'name': name, 'ok': not probs, 'detail': '; '.join(probs)}
     # user-supplied kernel files: each fit uses the file it was given (two files with the same name in different folders,
     # then the shipped kernel again), reports that file's pore widths and reproduces an exact combination of its isotherms
-    import pandas
     import shutil
     import tempfile
     tmp = tempfile.mkdtemp(prefix='pgv-c18-')
@@ -94,6 +94,20 @@ def kernel_cases(seed, thorough=False):
     except Exception as exc:
         out = type(exc).__name__
     yield {'name': 'pressure_outside_kernel_range_refused', 'ok': out == 'CalculationError', 'detail': out}
+    # ... also when only the last point lies just above the kernel's last pressure and the rest is a perfectly fittable isotherm
+    p_hi = float(max(numpy.asarray(pandas.read_csv(path, index_col=0).index, dtype=float)))
+    pe = numpy.append(numpy.geomspace(1e-6, 0.9, 40), [p_hi + 0.5 * (1 - p_hi)])
+    we = numpy.zeros(len(widths))
+    we[[5, 30, 60]] = (0.4, 0.6, 0.3)
+    le = numpy.asarray([sum(we[i] * float(kernel[s](min(x, p_hi))) for i, s in enumerate(kernel)) for x in pe])
+    try:
+        PK.psd_dft_kernel_fit(pe, le, path, 2)
+        out = 'return'
+    except CalculationError as exc:
+        out = 'CalculationError' if 'kernel' in str(exc).lower() else f"CalculationError for another reason: {exc}"[:100]
+    except Exception as exc:
+        out = type(exc).__name__
+    yield {'name': 'pressure_just_above_kernel_range_refused', 'ok': out == 'CalculationError', 'detail': out}
     # only points inside the limits influence the result (entry point on a real isotherm)
     import os
     import pygaps.parsing as pgp
